@@ -6,14 +6,13 @@
    Spec/CallSpec.v is the EVM meaning of the same scripts (snapshot / rollback). *)
 From Coq Require Import ZArith List Bool.
 From HV Require Import Base.Word Spec.Evm Spec.CallSpec Gen.GenOpcodes Gen.GenConsts Gen.GenCallMsg
-  Model.CallModel Proofs.CallProofs.
+  Model.CallModel Model.CallHeapModel Proofs.CallProofs Proofs.CallHeapProofs.
 Import ListNotations.
 Open Scope Z_scope.
 
 (* REFINEMENT, every script tree of any depth, every context, world and counter: unless the
-   specified run meets one of the four marked situations (value-bearing CALL in a static
-   frame, CALLCODE with value > balance, RETURNDATACOPY size 0 beyond the data, call of an
-   account-less address at the depth limit), the model reports at least one path and EVERY
+   specified run meets the one marked situation (call of an account-less address at the
+   depth limit: `clean`), the model reports at least one path and EVERY
    reported path has the specified outcome: same result kind and return data, same world
    (code, storage, transient storage, balances) after a successful frame, same CREATE
    counter, and the same ghost log, i.e. every frame anywhere in the tree -- also inside
@@ -128,29 +127,41 @@ Theorem C09_evm_create_atomic :
 Proof. exact evm_do_create_atomic. Qed.
 Print Assumptions C09_evm_create_atomic.
 
+(* ---- the three situations repaired in sevm.py, at full strength (they are also covered by
+   C09_refines: `clean` no longer excludes them) ---- *)
+
+(* fea28af: a value-bearing CALL inside a static frame halts the frame -- in the specification
+   and in the model, whatever the target, the callee and the rest of the frame; nothing else
+   is reported and nothing moves *)
+Theorem C09_static_value_call_halts :
+  forall to v rsz callee rest c w ctr ob l,
+    c_static c = true -> v <> 0 ->
+    sexec (SCall KCall to v rsz callee rest) c w ctr ob (returndata l) = (SHalt, ctr, [LEnd FHalt]) /\
+    mexec (SCall KCall to v rsz callee rest) c (mstate_of w ctr) ob l = [(FHalt, mstate_of w ctr, [LEnd FHalt])].
+Proof. exact static_value_call_halts. Qed.
+Print Assumptions C09_static_value_call_halts.
+
+(* 91e78e2: CALLCODE with value > balance: the callee never runs and no succeeding path is
+   reported -- the paths are exactly those of the rest of the frame continued with status
+   word 0, empty return data and the untouched state *)
+Theorem C09_callcode_insufficient_fails :
+  forall to v rsz callee rest c st ob l,
+    0 <= balance_of st (c_this c) < v ->
+    mexec (SCall KCallcode to v rsz callee rest) c st ob l =
+    mexec rest c st (m_after_call ob 0 (Some (false, true, [])) rsz []) (Some (false, true, [])).
+Proof. exact callcode_insufficient_fails. Qed.
+Print Assumptions C09_callcode_insufficient_fails.
+
+(* 4f2dd83: RETURNDATACOPY beyond the return data halts the frame, for every size (0 included) *)
+Theorem C09_retcopy_oob_halts :
+  forall off size rest c w ctr ob l,
+    blen (returndata l) < off + size ->
+    sexec (SRetCopy off size rest) c w ctr ob (returndata l) = (SHalt, ctr, [LEnd FHalt]) /\
+    mexec (SRetCopy off size rest) c (mstate_of w ctr) ob l = [(FHalt, mstate_of w ctr, [LEnd FHalt])].
+Proof. exact retcopy_oob_halts. Qed.
+Print Assumptions C09_retcopy_oob_halts.
+
 (* ---- the full statement (without the `clean` proviso) is FALSE of the faithful model ---- *)
-
-(* F11: inside a static frame a value-bearing CALL is executed and moves balances *)
-Theorem C09_static_value_call_refuted :
-  exists s c w ctr, supported s = true /\ c_static c = true /\ c_depth c <= MAX_DEPTH /\
-    fst (fst (sframe s c w ctr)) = SHalt /\
-    exists ret st lg, In (FOk ret, st, lg) (mframe s c (mstate_of w ctr)) /\ world_of st <> w.
-Proof. exact static_value_call_refuted. Qed.
-Print Assumptions C09_static_value_call_refuted.
-
-(* CALLCODE with value > balance: a succeeding path is reported next to the failing one *)
-Theorem C09_callcode_funds_refuted :
-  exists s c w ctr, supported s = true /\ c_depth c <= MAX_DEPTH /\
-    ~ Forall (fun m => R m (sframe s c w ctr)) (mframe s c (mstate_of w ctr)).
-Proof. exact callcode_funds_refuted. Qed.
-Print Assumptions C09_callcode_funds_refuted.
-
-(* RETURNDATACOPY with size 0 and offset > RETURNDATASIZE does not halt *)
-Theorem C09_retcopy_zero_refuted :
-  exists s c w ctr, supported s = true /\ c_depth c <= MAX_DEPTH /\
-    ~ Forall (fun m => R m (sframe s c w ctr)) (mframe s c (mstate_of w ctr)).
-Proof. exact retcopy_zero_refuted. Qed.
-Print Assumptions C09_retcopy_zero_refuted.
 
 (* a call of an address without account at the depth limit succeeds (and transfers) *)
 Theorem C09_depth_nocode_refuted :
@@ -179,4 +190,83 @@ Example C09_nonvacuous :
 Proof.
   vm_compute. split; [reflexivity|]. split; [reflexivity|].
   eexists _, _. split; [reflexivity|]. repeat split; reflexivity.
+Qed.
+
+(* ---- ALL THE PATHS, OVER SHARED OBJECTS ------------------------------------------------
+   Model/CallHeapModel.v explores a script tree the way SEVM.run does: every side of every
+   fork (JUMPI on a symbolic word, insufficient-funds split), one after the other in the
+   order of the LIFO worklist, over ONE heap of mutable objects -- sub-frames share the
+   objects of their caller, create_branch copies them for the side explored later, the
+   orig_* backups live in a callback closure that runs once per path of the callee.  Whether
+   a backup / restore / branch takes a copy or the object itself is regenerated from sevm.py.
+
+   ISOLATION: for every feasibility oracle (which sides inconsistent with the valuation at
+   hand are explored as well), every script tree, context and world, the paths that hold
+   under the valuation -- read out of the heap as it is when the WHOLE exploration is over --
+   are exactly, in number, order and content, the results of the state-passing model: no
+   path sees or keeps anything another path did (in particular: the rollback after a failed
+   sub-frame hands every path of the callee its own pre-call state, whatever the caller
+   writes afterwards on the paths explored before). *)
+Theorem C09_paths_isolated :
+  forall feas s c w ctr, explored feas s c w ctr = mframe s c (mstate_of w ctr).
+Proof. exact explored_is_mframe. Qed.
+Print Assumptions C09_paths_isolated.
+
+(* hence every holding path of the exploration has the specified outcome (C09_refines) *)
+Theorem C09_explored_refines :
+  forall feas s c w ctr r ctr' lg,
+    supported s = true -> c_depth c <= MAX_DEPTH ->
+    sframe s c w ctr = (r, ctr', lg) -> clean lg = true ->
+    explored feas s c w ctr <> [] /\
+    Forall (fun m : mres =>
+              let '(f, st, lg_m) := m in
+              lg_m = lg /\ m_cnt st = ctr' /\
+              match r with
+              | SOk ret w' => f = FOk ret /\ world_of st = w'
+              | SRevert ret => f = FRevert ret
+              | SHalt => f = FHalt
+              end)
+           (explored feas s c w ctr).
+Proof. exact explored_refines. Qed.
+Print Assumptions C09_explored_refines.
+
+(* SEPARATION: when the exploration is over, every explored path (holding or not) holds
+   references to three distinct objects of the heap, and no two paths hold an object in
+   common (checked on the real Exec objects by the correspondence run) *)
+Theorem C09_paths_separate :
+  forall feas s c w ctr ps Hf,
+    hframe feas s c (hstate_of w ctr) (heap_of w) = (ps, Hf) ->
+    Forall (fun p : hpath =>
+              let '(_, _, hs, _) := p in
+              (h_code hs < length Hf)%nat /\ (h_storage hs < length Hf)%nat /\ (h_transient hs < length Hf)%nat /\
+              h_code hs <> h_storage hs /\ h_code hs <> h_transient hs /\ h_storage hs <> h_transient hs) ps /\
+    ForallOrdPairs
+      (fun p q : hpath =>
+         let '(_, _, hp, _) := p in
+         let '(_, _, hq, _) := q in
+         forall r, r = h_code hp \/ r = h_storage hp \/ r = h_transient hp ->
+                   ~ (r = h_code hq \/ r = h_storage hq \/ r = h_transient hq)) ps.
+Proof. exact explored_paths_separate_explicit. Qed.
+Print Assumptions C09_paths_separate.
+
+(* non-vacuity: a callee with two failing paths (fork on an input word, here non-zero),
+   the caller reads slot 0, writes 7 to it and reads it again after the failed call.  With
+   every side explored (3 paths: both sides of the fork, and the insufficient-funds branch)
+   over 18 objects, EVERY path read 3 -- the value before the call -- first, then 7, and ends
+   with 7 in its own storage object; exactly one path holds *)
+Example C09_explore_nonvacuous :
+  let callee := SIf 1 (SSstore 0 5 (SEnd (ERevert 21))) (STstore 1 6 (SEnd EInvalid)) in
+  let s := SSstore 0 3 (SCall KCall 8192 0 32 callee
+             (SObserve 0 (SSstore 0 7 (SObserve 0 (SEnd (EReturn 23)))))) in
+  let c := mkCtx 4096 77 78 0 [0] false 1 in
+  let w := mkWorld [(4096, [0]); (8192, [0])] [] [] [] in
+  let '(ps, Hf) := hframe (fun _ => true) s c (hstate_of w 0) (heap_of w) in
+  length ps = 3%nat /\ length Hf = 18%nat /\ length (filter holding ps) = 1%nat /\
+  Forall (fun p : hpath =>
+            let '(_, r, hs, _) := p in
+            sload_of (m_storage (habs Hf hs)) 4096 0 = 7 /\
+            exists ret, r = FOk ret /\ nth 319 ret 0 = 3 /\ nth 575 ret 0 = 7) ps.
+Proof.
+  vm_compute. repeat split; try reflexivity.
+  repeat constructor; eexists; repeat split; reflexivity.
 Qed.
